@@ -191,8 +191,11 @@ func runC11(c *core.Ctx) error {
 	checkGuardedRecursion(c, r4, prog, recExempt)
 	checkCycleGuardUnconditional(c, r4, prog)
 	checkFileReadFresh(c, prog)
+	checkRootFileOnlyForRoot(c, prog)
 	checkNilContradictions(c, prog, table)
 	checkNilBeliefsAcrossCalls(c, prog, table)
+	r9 := c.NewRule("R11.9", "S1", "a local index is consulted with keys built the way it was filled (duplicates the parser promises to remove do not reach the generator's unreachable arms)", 5)
+	checkInsertLookupKeyAgreement(c, r9, prog, pkgParser, pkgJS, pkgGen, pkgIR)
 	return nil
 }
 
@@ -1099,6 +1102,104 @@ func checkFileReadFresh(c *core.Ctx, prog *core.Prog) {
 					r.Fail(key, c.Pos(call.Pos()), why)
 				}
 			}
+		}
+	}
+}
+
+
+// rootFileReaders: functions that may read the parser's rootFile although a
+// resolve context is around, one reason each.
+var rootFileReaders = map[string]string{
+	"(*ogen/openapi/parser.parser).file":         "the accessor: falls back to rootFile only when the context's file is zero (root document)",
+	"(*ogen/jsonschema.Parser).file":             "the accessor: falls back to rootFile only when the context's file is zero (root document)",
+	"(*ogen/openapi/parser.parser).wrapLocation": "fallback when the file handed in is zero",
+	"(*ogen/jsonschema.Parser).wrapLocation":     "fallback when the file handed in is zero",
+	"ogen/openapi/parser.resolveComponent":       "starts from rootFile and replaces it with the resolver's file unless ctx.IsRoot(key)",
+}
+
+// checkRootFileOnlyForRoot (R11.8): while a $ref is being followed the file a
+// diagnostic belongs to is the one on top of the resolve context, not the root
+// document. A function that reads the parser's rootFile must therefore not be
+// part of reference-following code: it neither takes a *jsonpointer.ResolveCtx
+// nor is called (statically, one edge) by a function that does — except the
+// reviewed accessors above.
+func checkRootFileOnlyForRoot(c *core.Ctx, prog *core.Prog) {
+	r := c.NewRule("R11.8", "S1", "diagnostics of reference-following code are stamped with the resolve context's file, never with the parser's rootFile", 6)
+	hasCtx := func(f *ssa.Function) bool {
+		for root := f; root != nil; root = root.Parent() {
+			for _, p := range root.Params {
+				if strings.HasSuffix(p.Type().String(), "jsonpointer.ResolveCtx") {
+					return true
+				}
+			}
+		}
+		return false
+	}
+	var all []*ssa.Function
+	for _, pp := range []string{pkgParser, pkgJS} {
+		if sp := prog.ByPath[pp]; sp != nil {
+			for _, top := range core.PkgFuncs(prog.SSA, sp) {
+				all = append(all, core.AllFuncs(top)...)
+			}
+		}
+	}
+	callers := map[*ssa.Function][]*ssa.Function{}
+	for _, f := range all {
+		for _, call := range core.Calls(f) {
+			if g := call.Common().StaticCallee(); g != nil {
+				callers[g] = append(callers[g], f)
+			}
+		}
+	}
+	seen := map[*ssa.Function]bool{}
+	for _, f := range all {
+		if seen[f] {
+			continue
+		}
+		seen[f] = true
+		var read token.Pos
+		for _, b := range f.Blocks {
+			for _, in := range b.Instrs {
+				if fa, ok := in.(*ssa.FieldAddr); ok && fieldName(fa.X.Type(), fa.Field) == "rootFile" {
+					// a load, not the initialising store
+					for _, ref := range *fa.Referrers() {
+						if ld, ok := ref.(*ssa.UnOp); ok && ld.Op == token.MUL {
+							read = ld.Pos()
+							if read == token.NoPos {
+								read = fa.Pos()
+							}
+						}
+					}
+				}
+			}
+		}
+		if read == token.NoPos {
+			continue
+		}
+		name := core.FuncName(f)
+		root := f
+		for root.Parent() != nil {
+			root = root.Parent()
+		}
+		if why, ok := rootFileReaders[core.FuncName(root)]; ok {
+			r.Justified++
+			r.Pass(fmt.Sprintf("%s reads rootFile: %s", name, why))
+			continue
+		}
+		via := ""
+		if hasCtx(f) {
+			via = "it has a resolve context itself"
+		} else {
+			for _, cl := range callers[root] {
+				if hasCtx(cl) {
+					via = "it is called from " + cl.Name() + ", which follows references"
+				}
+			}
+		}
+		if via == "" {
+			r.Pass(fmt.Sprintf("%s reads rootFile and is root-document code (no resolve context in it or in its callers)", name))
+		} else {
+			r.Fail("rootfile-in-ref-code:"+fnKeyFull(f), c.Pos(read), fmt.Sprintf("%s stamps its diagnostics with the parser's rootFile although %s: for an object reached through a $ref into another file the error names the root document with the other file's line and column", f.Name(), via))
 		}
 	}
 }
